@@ -23,6 +23,8 @@ open Py PyAst GenImports
 inductive Err where
   | keyError | indexError | valueError | typeError | moduleNotFound | notImplemented | syntaxError
   | assertionError | ioError | attributeError | stopIteration
+  /-- `OSError` subclass raised by `open(path, "a")` (a parameter: the file system) -/
+  | os (cls : String)
   /-- raised inside a per-entry parser / emitter (a parameter of the model); the payload is the exception class -/
   | entry (cls : String)
   /-- not an exception: the model does not cover this input -/
@@ -509,25 +511,62 @@ def gen (W : World) (cfg : Cfg) (input : InputFile) : Except Err Output := do
     -- `gen_file`'s assertion: more than the bare `__all__` assignment
     if body.length > 1 then pure (.module body) else throw .assertionError
 
-/-! ## `main`: the destructive-operation guard, as an effect trace -/
+/-! ## `main`: the destructive-operation guard, as an effect trace
+
+The trace carries the **path strings**: the one the guard hands to `path.isfile` and the one `gen_file` /
+`json_schema_file` hand to `open(…, "a")`.  Both are the raw `--output-filename` argument (`guardPath`, `writePath` are
+the identity): neither side expands `~`, makes the path absolute or resolves symlinks.  The file system answers on path
+strings (`FS`), with the operating system's own resolution (relative to the cwd, symlinks followed, no `~`). -/
+
+/-- the file system, as far as `gen` asks it -/
+structure FS where
+  /-- `os.path.isfile(p)` -/
+  isfile : String → Bool
+  /-- outcome of `open(p, "a")`: fine, or the `OSError` subclass (`FileNotFoundError` when the directory does not exist,
+      `NotADirectoryError` for `file.py/`, …) -/
+  openAppend : String → Except Err Unit
+
+/-- the expression `main` tests: `path.isfile(args.output_filename)` — the raw argument -/
+def guardPath (output : String) : String := output
+/-- the expression `gen` opens: `gen(**args_dict)` passes `output_filename` on unchanged to `gen_file` /
+    `json_schema_file`, which do `open(output_filename, "a")` — the raw argument -/
+def writePath (output : String) : String := output
 
 inductive Eff where
-  /-- `path.isfile(output_filename)` -/
+  /-- `path.isfile(p)` -/
   | isfile (p : String)
   | raise (e : Err)
-  /-- `open(output_filename, "a")` + write -/
-  | append (p : String)
+  /-- `open(p, "a")` (creates the file when it does not exist) -/
+  | openAppend (p : String)
+  /-- `f.write(...)` / `json.dump(..., f)` into the file opened from `p` -/
+  | write (p : String)
 deriving DecidableEq, Repr
 
+/-- effects that can create or change a file -/
 def Eff.isWrite : Eff → Bool
-  | .append _ => true
+  | .openAppend _ => true
+  | .write _ => true
   | _ => false
 
-/-- `main` for `command == "gen"`: `fileExists` is the file system, `run` the result `gen(**args)` would have -/
-def mainGen (fileExists : String → Bool) (output : String) (phase : Int) (run : Except Err Output) : List Eff :=
-  if fileExists output && phase == 0 then [.isfile output, .raise .ioError]
-  else .isfile output :: (match run with
-    | .ok _ => [.append output]
-    | .error e => [.raise e])
+/-- the final `write` into the opened file -/
+def Eff.isFinalWrite : Eff → Bool
+  | .write _ => true
+  | _ => false
+
+/-- the path an effect creates or changes -/
+def Eff.writes? : Eff → Option String
+  | .openAppend p => some p
+  | .write p => some p
+  | _ => Option.none
+
+/-- `main` for `command == "gen"`: `run` is the result `gen(**args)` computes before it opens the output file
+    (the module / the schemas, or the exception) -/
+def mainGen (fs : FS) (output : String) (phase : Int) (run : Except Err Output) : List Eff :=
+  if fs.isfile (guardPath output) && phase == 0 then [.isfile (guardPath output), .raise .ioError]
+  else .isfile (guardPath output) :: (match run with
+    | .error e => [.raise e]
+    | .ok _ => .openAppend (writePath output) :: (match fs.openAppend (writePath output) with
+      | .ok _ => [.write (writePath output)]
+      | .error e => [.raise e]))
 
 end GenModule
